@@ -322,7 +322,9 @@ fn monotone(case_seed: u64, r: &mut Report) {
                 }
             }
             2 => {
-                let inc = rng.below(ann[m as usize] as usize + 1) as u64;
+                // a suspicion may name any incarnation, also one the member never announced (stale
+                // or confused reporter): it must not make the replica record that incarnation
+                let inc = rng.below(ann[m as usize] as usize + 3) as u64;
                 desc = format!("suspect {} inc {}", mname(m), inc);
                 if use_mgr {
                     mgr.handle_gossip(GossipMessage::Suspect { reporter: "obs".into(), suspect: mname(m), incarnation: inc });
@@ -417,12 +419,105 @@ fn monotone(case_seed: u64, r: &mut Report) {
     }
 }
 
+/// The hybrid logical clock behind the membership timestamps: every timestamp a clock issues
+/// (now / receive) is strictly greater than the one it issued before, and a receive result is
+/// strictly greater than the received timestamp - whatever wall times and logical counters the
+/// received timestamps carry and whatever clock jumps are injected.
+fn hlc_case(case_seed: u64, r: &mut Report) {
+    use tensor_chain::hlc::{HLCTimestamp, HybridLogicalClock};
+    let mut rng = Rng::new(case_seed);
+    let clock = match HybridLogicalClock::new(rng.next_u64()) {
+        Ok(c) => c,
+        Err(_) => {
+            r.inconclusive("hlc: system clock unavailable");
+            return;
+        }
+    };
+    // pin the clock's wall component far in the future so that the run does not depend on real
+    // time: afterwards "same wall time" situations are produced at will
+    let mut frontier = clock.estimated_wall_ms() + 1_000_000_000 + rng.below(1000) as u64;
+    let mut last: Option<(u64, u64)> = None;
+    let mut trace: Vec<String> = Vec::new();
+    let steps = 10 + rng.below(40);
+    for step in 0..steps {
+        let issued: (u64, u64);
+        match rng.weighted(&[35, 55, 10]) {
+            0 if step > 0 => {
+                match clock.now() {
+                    Ok(t) => issued = (t.wall_ms(), t.logical()),
+                    Err(_) => continue,
+                }
+                trace.push(format!("now -> {:?}", issued));
+            }
+            2 => {
+                let j = rng.range(-5_000, 5_000);
+                clock.inject_clock_jump(j);
+                trace.push(format!("clock jump {}", j));
+                continue;
+            }
+            _ => {
+                let wall = match rng.below(if step == 0 { 1 } else { 6 }) {
+                    0 => {
+                        frontier += rng.below(3) as u64;
+                        frontier
+                    }
+                    1 | 2 => last.map(|l| l.0).unwrap_or(frontier),
+                    3 => last.map(|l| l.0.saturating_sub(1 + rng.below(5) as u64)).unwrap_or(frontier),
+                    4 => last.map(|l| l.0 + 1).unwrap_or(frontier),
+                    _ => rng.below(1000) as u64,
+                };
+                let logical = match rng.below(4) {
+                    0 => 0,
+                    1 => last.map(|l| l.1.saturating_sub(rng.below(4) as u64)).unwrap_or(0),
+                    2 => last.map(|l| l.1 + rng.below(4) as u64).unwrap_or(3),
+                    _ => rng.below(50) as u64,
+                };
+                let recv = HLCTimestamp::new(wall, logical, 7);
+                match clock.receive(&recv) {
+                    Ok(t) => {
+                        issued = (t.wall_ms(), t.logical());
+                        trace.push(format!("receive ({}, {}) -> {:?}", wall, logical, issued));
+                        if issued <= (wall, logical) {
+                            r.violation(
+                                "hlc:receive-result-not-after-received-timestamp",
+                                format!("receive(({}, {})) returned {:?}; trace {:?}", wall, logical, issued, trace),
+                                json!({"part": "hlc", "case_seed": case_seed}),
+                            );
+                            return;
+                        }
+                    }
+                    Err(_) => continue,
+                }
+            }
+        }
+        r.count("hlc_timestamps_checked", 1);
+        if let Some(prev) = last {
+            if issued <= prev {
+                r.violation(
+                    "hlc:clock-went-backwards",
+                    format!("issued {:?} after {:?}; trace {:?}", issued, prev, trace),
+                    json!({"part": "hlc", "case_seed": case_seed}),
+                );
+                return;
+            }
+            if issued.0 == prev.0 {
+                r.count("hlc_same_wall_steps", 1);
+            }
+        }
+        last = Some(issued);
+    }
+    r.eval(hash_str(&trace.join(";")), true);
+    if r.want_sample() {
+        r.sample(json!({"part": "hlc", "trace": trace.iter().take(8).collect::<Vec<_>>()}));
+    }
+}
+
 fn main() {
     let args = Args::parse();
     let started = Instant::now();
     quiet_panics();
     let mut total = Report::new();
-    total.max_samples = 9;
+    total.max_samples = 12;
 
     if let Some(p) = &args.replay {
         let v: Value = serde_json::from_str(&std::fs::read_to_string(p).expect("replay file")).expect("json");
@@ -430,6 +525,7 @@ fn main() {
         match rp["part"].as_str().unwrap_or("") {
             "conv-random" => conv_random(rp["case_seed"].as_u64().unwrap(), &mut total),
             "monotone" => monotone(rp["case_seed"].as_u64().unwrap(), &mut total),
+            "hlc" => hlc_case(rp["case_seed"].as_u64().unwrap(), &mut total),
             _ => {
                 let ups: Vec<Upd> = rp["updates"]
                     .as_array()
@@ -453,7 +549,7 @@ fn main() {
     } else {
         // ---- exhaustive part: every multiset of size <= N over the small universe
         let uni = Arc::new(universe(2, 3, 2, 3));
-        let n_max = args.by_tier(3usize, 4usize);
+        let n_max = args.by_tier(4usize, 5usize);
         let u = uni.len();
         // cases = first element index (multisets are non-decreasing index tuples)
         let pairs: Vec<(usize, usize)> = (0..u).flat_map(|a| (a..u).map(move |b| (a, b))).collect();
@@ -473,6 +569,11 @@ fn main() {
                     if n_max >= 4 {
                         for d in c..uni.len() {
                             check_multiset_exhaustive(&[uni[a], uni[b], uni[c], uni[d]], r, "conv-exhaustive");
+                            if n_max >= 5 {
+                                for e in d..uni.len() {
+                                    check_multiset_exhaustive(&[uni[a], uni[b], uni[c], uni[d], uni[e]], r, "conv-exhaustive");
+                                }
+                            }
                         }
                     }
                 }
@@ -483,25 +584,29 @@ fn main() {
         total.count("exhaustive_complete", exhaustive_done as u64);
         total.merge(rep);
         // ---- random parts
-        let n_rand = args.by_tier(4_000u64, 300_000u64);
+        let n_rand = args.by_tier(100_000u64, 2_000_000u64);
         let rep = par_cases(args.threads, args.seed ^ 0xA1, n_rand, args.budget(120, 900), |_i, s, r| conv_random(s, r));
         total.count("random_multisets", rep.evaluations);
         total.merge(rep);
-        let n_mono = args.by_tier(6_000u64, 400_000u64);
+        let n_mono = args.by_tier(150_000u64, 3_000_000u64);
         let rep = par_cases(args.threads, args.seed ^ 0xB2, n_mono, args.budget(120, 900), |_i, s, r| monotone(s, r));
         total.count("monotone_programs", rep.evaluations);
+        total.merge(rep);
+        let n_hlc = args.by_tier(300_000u64, 6_000_000u64);
+        let rep = par_cases(args.threads, args.seed ^ 0xC7, n_hlc, args.budget(60, 600), |_i, s, r| hlc_case(s, r));
+        total.count("hlc_programs", rep.evaluations);
         total.merge(rep);
     }
 
     let meta = Meta {
         property: "C17",
-        rule: "conv-exhaustive: every multiset of <=N (quick 3, thorough 4) updates over 2 members x incarnation{0,1,2} x timestamp{1,2} x {Healthy,Degraded,Failed}, each delivered in every permutation x every batching (+ full re-delivery) to a fresh real LWWMembershipState and compared with the canonical delivery; conv-random: 3-10 updates over 2-4 members (incl. Unknown health), sampled permutations/batchings/duplications through merge and through GossipMembershipManager::handle_gossip(Sync); monotone: random programs of merges and local events with per-call checks. A case is distinct by the hash of its update multiset / trace and non-trivial if at least two different updates concern the same member (so order can matter).",
+        rule: "conv-exhaustive: every multiset of <=N (quick 4, thorough 5) updates over 2 members x incarnation{0,1,2} x timestamp{1,2} x {Healthy,Degraded,Failed}, each delivered in every permutation x every batching (+ full re-delivery) to a fresh real LWWMembershipState and compared with the canonical delivery; conv-random: 3-10 updates over 2-4 members (incl. Unknown health), sampled permutations/batchings/duplications through merge and through GossipMembershipManager::handle_gossip(Sync); monotone: random programs of merges and local events (suspicions may name incarnations nobody announced) with per-call checks; hlc: random programs of now / receive (wall before, equal to, after the clock's; arbitrary logical counters) / clock jumps on the real HybridLogicalClock, every issued timestamp compared with the previous one. A case is distinct by the hash of its update multiset / trace and non-trivial if at least two different updates concern the same member (so order can matter).",
         assumptions: vec![
             "views are compared on (health, incarnation) per member, as the statement says; timestamps and wall-clock stamps are not compared".into(),
             "manager convergence uses a sender that is not an observed member, because handle_sync additionally marks the *sender* healthy with a local timestamp (a local event, not a membership update)".into(),
             "update_local is only called for a member's own non-decreasing incarnation (how the manager uses it)".into(),
         ],
-        floors: if args.replay.is_some() { vec![] } else { vec![("exhaustive_multisets", 5_000), ("random_multisets", 500), ("monotone_programs", 500), ("deliveries", 100_000)] },
+        floors: if args.replay.is_some() { vec![] } else { vec![("exhaustive_multisets", 5_000), ("random_multisets", 500), ("monotone_programs", 500), ("deliveries", 100_000), ("hlc_timestamps_checked", 50_000), ("hlc_same_wall_steps", 5_000)] },
         exhaustive: false,
     };
     write_result(&args, &meta, &total, started);
